@@ -30,7 +30,7 @@ PROPS = {
         "assumptions": ["all SubRule methods are invoked on the same SubRule object (cells named by field)"],
     },
     "C05": {
-        "rules": [("SUP-1", sup.sup1), ("SUP-2", sup.sup2), ("SUP-4", sup.sup4), ("SUP-5", sup.sup5), ("SUP-7", r5.sup7), ("SHR-5", r5.shr5)],
+        "rules": [("SUP-1", sup.sup1), ("SUP-2", sup.sup2), ("SUP-4", sup.sup4), ("SUP-5", sup.sup5), ("SUP-7", r5.sup7), ("SHR-5", r5.shr5), ("TAB-8", r5.tab8)],
         "explanation": "Decides the table clauses of C05 by decision-table extraction: the matchers and setters of stress / sec.stress / long / overlong are small decision "
                        "trees over two finite domains (stress in {unstressed, primary, secondary}; length in {short, long, overlong}); the trees are read off the HIR (comparison "
                        "operators and constants, `while seg_len < N` / `> N` clamps, constants assigned to `.stress`, the true/false and Positive/Negative arms) and tabulated. "
@@ -76,7 +76,7 @@ PROPS = {
     },
     "C14": {
         "controls": ["FLW-guard"],
-        "rules": [("FLW-4", flw2.flw4), ("FLW-4g", r5.flw4g)],
+        "rules": [("FLW-4", flw2.flw4), ("FLW-4g", r5.flw4g), ("TAB-8", r5.tab8)],
         "explanation": "Decides the write-effect clauses of C14 on MIR: Segment::apply_seg_mods cannot reach a syllable by type; in Syllable::apply_syll_mods every write "
                        "of stress (tone) is reachable only on a Some edge of mods.stress[i] (mods.tone) and nothing else is written; in apply_supras every insertion/"
                        "removal of segment copies is reachable only on a Some edge of mods.length[i]; Syllable::apply_seg_mods only maps the segment-level function "
@@ -127,7 +127,7 @@ PROPS = {
         "assumptions": ["argument and parameter names are meaningful (crossed-names detector: fires only on a crossing, never on merely different names)"],
     },
     "C20": {
-        "rules": [("CLI-2", cli.cli2), ("CLI-3", cli.cli3), ("CLI-5", cli.cli5)],
+        "rules": [("CLI-2", cli.cli2), ("CLI-3", cli.cli3), ("CLI-5", cli.cli5), ("CLI-8", r5.cli8)],
         "explanation": "Decides the cycle, filter and stage-order clauses of C20: Parser::parse returns Ok only after top-level loops that check every `%tag` reference "
                        "for existence and for cycles (detector inserts each visited tag in a set and returns on a repeat), every config slice given to the five "
                        "functions that follow `from` recursively comes from get_config = Parser::parse, and ASCAConfig literals with a reference are built only in "
@@ -166,7 +166,7 @@ PROPS = {
     },
     "C10": {
         "controls": ["PUR-3"],
-        "rules": [("PUR-3", pur.pur3), ("PUR-4", pur.pur4), ("PUR-5", pur.pur5), ("RT-3", r5.rt3), ("RT-4", r5.rt4)],
+        "rules": [("PUR-3", pur.pur3), ("PUR-4", pur.pur4), ("PUR-5", pur.pur5), ("RT-3", r5.rt3), ("RT-4", r5.rt4), ("PUR-6", r5.pur6)],
         "explanation": "Decides the statelessness / grouping clause of C10: applying a rule list is a left fold `word = rule.apply(word)?` over groups and rules in "
                        "order with no early exit, no adaptor and no other loop-carried state (PUR-5); the step depends only on its arguments: no global state "
                        "(PUR-3), binding tables fresh or reset (PUR-4). Hence regrouping and empty groups cannot matter.",
@@ -175,7 +175,7 @@ PROPS = {
     },
     "C11": {
         "controls": ["PUR-1", "PUR-3"],
-        "rules": [("PUR-1", pur.pur1), ("PUR-3", pur.pur3), ("PUR-4", pur.pur4), ("PUR-5", pur.pur5)],
+        "rules": [("PUR-1", pur.pur1), ("PUR-3", pur.pur3), ("PUR-4", pur.pur4), ("PUR-5", pur.pur5), ("PUR-6", r5.pur6)],
         "explanation": "Decides C11 structurally: one result per input line in input order (apply_rule_groups pushes exactly one word per word and one phrase per line, "
                        "iterating front to back with no break/continue/adaptor; parse_phrases / phrases_to_string use only order- and count-preserving adaptors, "
                        "split(' ') / + \" \" / one trim_end); no cross-word channel: the per-word loop starts from word.clone() and carries only the word, no "
@@ -185,7 +185,7 @@ PROPS = {
     },
     "C17": {
         "controls": ["ERR-1", "PAN-7"],
-        "rules": [("ERR-1", err.err1), ("ERR-2", err.err2), ("ERR-3", err.err3), ("ERR-4", err.err4), ("ERR-5", err.err5), ("PAN-7", pan.pan7), ("PAN-10", pan.pan10)],
+        "rules": [("ERR-1", err.err1), ("ERR-2", err.err2), ("ERR-3", err.err3), ("ERR-4", err.err4), ("ERR-5", err.err5), ("ERR-6", r5.err6), ("PAN-7", pan.pan7), ("PAN-10", pan.pan10)],
         "explanation": "PAN-7: formatting an error never slices a string at a character column (no str range-slice by a foreign offset in lib or bin). ERR-3 (ii-b): the characters handed to Lexer::new / AliasLexer::new are `<enumerated line>.chars().collect()` untransformed, so columns refer to the text the formatter prints. Decides the dispatch, payload and index-provenance clauses of C17: no call of an ASCAError formatter resolves to an impl whose "
                        "body is a bare unreachable!() (lib and CLI dispatchers cover all six Error variants); every variant of the six error enums carries a "
                        "location payload; the (group,line)/(kind,line) values handed to the lexers and parsers are the enumerate indices of exactly the slices "
